@@ -51,6 +51,13 @@ type Event struct {
 	Err       string
 }
 
+// SimDelay is a delay on the simulated clock of about ms milliseconds. Two sleeps that begin at the same simulated
+// instant (simulated time stands still between two steps of the simulator) must not end at the same instant, else
+// the Go scheduler decides which sleeper goes first: a few microseconds derived from who sleeps keep them apart.
+func SimDelay(ms int, who ...[]byte) time.Duration {
+	return time.Duration(ms)*time.Millisecond + time.Duration(prng.Hash64(who...)%99991)*time.Nanosecond*10
+}
+
 type Recorder struct {
 	mu     sync.Mutex
 	Events []Event
@@ -159,7 +166,7 @@ func (b *Backend) rec(e Event) {
 
 func (b *Backend) ClassifyMsg(msgBytes []byte) (uint8, bool, error) {
 	if b.P.ClassifyDelayMs > 0 && prng.Hash64(msgBytes)%3 == 0 {
-		time.Sleep(time.Duration(b.P.ClassifyDelayMs) * time.Millisecond)
+		time.Sleep(SimDelay(b.P.ClassifyDelayMs, msgBytes, []byte{byte(b.Node), byte(b.Node >> 8)}))
 	}
 	r, bc, err := Classify(msgBytes)
 	return r, bc, err
@@ -167,7 +174,7 @@ func (b *Backend) ClassifyMsg(msgBytes []byte) (uint8, bool, error) {
 
 func (b *Backend) Init(parties []uint16, threshold int, sendMsg func(msg []byte, isBroadcast bool, to uint16)) {
 	if b.P.InitDelayMs > 0 {
-		time.Sleep(time.Duration(b.P.InitDelayMs) * time.Millisecond)
+		time.Sleep(SimDelay(b.P.InitDelayMs, []byte(b.Instance), []byte{byte(b.Node), byte(b.Node >> 8)}))
 	}
 	b.mu.Lock()
 	b.parties = append([]uint16(nil), parties...)
